@@ -355,11 +355,17 @@ def run_vacuity(g, meta):
             skipped.append(key)
             continue
         cont = key.split("::")[0] if "::" in key else None
+        # generic container (`impl<T> Cont<T> {`): the guard is generic over the same parameters
+        cont_generics, cont_args = "", ""
+        if cont:
+            mi = re.search(r"impl\s*(<[^>{]*>)\s*(?:\w+\s+for\s+)?%s\s*(<[^>{]*>)" % re.escape(cont), "\n".join(g.lines))
+            if mi:
+                cont_generics, cont_args = mi.group(1), mi.group(2)
         out_ps = []
         ok = True
         for p in ps:
             if re.fullmatch(r"(&\s*(mut\s+)?|mut\s+)?self", p):
-                out_ps.append("s_: %s" % cont)
+                out_ps.append("s_: %s%s" % (cont, cont_args))
                 continue
             mm = re.match(r"(mut\s+)?(\w+)\s*:\s*(.*)$", p, re.S)
             if not mm or "impl " in mm.group(3):
@@ -385,6 +391,8 @@ def run_vacuity(g, meta):
         mg = re.search(r"fn\s+\w+\s*(<[^>]*>)", sig)
         if mg:
             generics = mg.group(1)
+        if cont_generics:
+            generics = cont_generics if not generics else "<" + cont_generics[1:-1] + ", " + generics[1:-1] + ">"
         add.append("proof fn %s%s(%s)\n    requires\n%s,\n{\n    assert(false);\n}" % (nm, generics, ", ".join(out_ps), req))
     if not names:
         return dict(checked=0, vacuous=[], skipped=skipped)
